@@ -12,6 +12,7 @@ ALPHABET = [b"a", b"7", b"_", b"-", b".", "é".encode(), "€".encode(),
             "\u012d".encode()]                                                           # and a letter whose code point ends in the byte of '-'
 # code points whose low byte is one of the ASCII bytes the function treats specially (- _ . 0 9 A a :), in every UTF-8 length:
 # a comparison made on a truncated rune takes them for that ASCII character
+FOLD = ["\u212a".encode(), "\u0130".encode(), "\u017f".encode(), "\u0131".encode()]      # fold to k, i, s, i
 LOWBYTE = [chr(hi * 0x100 + lo).encode("utf-8") for lo in (0x2D, 0x5F, 0x2E, 0x30, 0x39, 0x41, 0x61, 0x3A) for hi in (0x01, 0x4E, 0x1F3)]
 
 TRUSTED = [
@@ -29,6 +30,8 @@ def corpus():
     for cp in edges:
         u = chr(cp).encode("utf-8")
         out += [u, b"a" + u + b"b", b"-" + u + b"-", b"1" + u, u + u, b"a" + u, u + b"-" + u]
+    for u in FOLD:
+        out += [u, b"a" + u, u + b"a", b"cpu.temp_" + u, u + b"stanbul.hits", u + b"-", b"9" + u, u + u]
     for u in LOWBYTE:
         out += [u, u + b"-", b"-" + u, u + b"-" + u, b"a" + u + b"-b", u + b"--", u + b"_", b"_" + u, b"9" + u, u + b"9", u + b".", u + b"a", u + b"-" + b"a", b"0" + u + b"-"]
     # lengths around every power of two a fixed buffer could have
